@@ -267,6 +267,92 @@ pub enum MSkipE {
     C(#[serde(skip_serializing_if = "Option::is_none")] Option<u128>),
 }
 
+// ---- candidate types: no MaxSize impl today, but a plausible future one; tested as soon as the impl exists
+struct Probe<T>(std::marker::PhantomData<T>);
+trait ViaNo {
+    fn declared_max(&self) -> Option<usize> {
+        None
+    }
+}
+impl<T> ViaNo for &Probe<T> {}
+trait ViaYes {
+    fn declared_max(&self) -> Option<usize>;
+}
+impl<T: MaxSize> ViaYes for Probe<T> {
+    fn declared_max(&self) -> Option<usize> {
+        Some(T::POSTCARD_MAX_SIZE)
+    }
+}
+
+/// `candidate!(t, Type, [values...])`: when `Type: MaxSize` exists, every listed (extreme) value must fit.
+macro_rules! candidate {
+    ($t:expr, $ty:ty, [$($v:expr),* $(,)?]) => {{
+        let declared: Option<usize> = (&Probe::<$ty>(std::marker::PhantomData)).declared_max();
+        $t.st.count("candidate_types_probed");
+        if let Some(max) = declared {
+            $t.st.count("candidate_types_with_an_impl");
+            $t.st.count("types");
+            let vals: Vec<$ty> = vec![$($v),*];
+            for v in &vals {
+                $t.st.eval();
+                $t.st.count("values_checked");
+                match catch(|| postcard::to_allocvec(v).map(|b| b.len())) {
+                    Ok(Ok(n)) if n <= max => {}
+                    other => {
+                        $t.st.violation(
+                            &format!("C12:exceeds-declared-max:{}", stringify!($ty).replace(' ', "")),
+                            format!("{}: a value encodes to {:?} bytes but POSTCARD_MAX_SIZE is {}", stringify!($ty), other.map(|r| r.map_err(|e| err_label(&e))), max),
+                            vec![kv("kind", "c12"), kv("type", stringify!($ty)), kv("declared_max", max.to_string())],
+                        );
+                        break;
+                    }
+                }
+            }
+        }
+    }};
+}
+
+fn candidate_types(t: &mut Tctx) {
+    use std::net::{IpAddr, Ipv4Addr, Ipv6Addr, SocketAddr, SocketAddrV4, SocketAddrV6};
+    use std::num::Wrapping;
+    use std::ops::Bound;
+    use std::time::Duration;
+    candidate!(t, Duration, [Duration::MAX, Duration::new(u64::MAX, 999_999_999), Duration::new(0, 999_999_999), Duration::ZERO]);
+    candidate!(t, Wrapping<u64>, [Wrapping(u64::MAX), Wrapping(0)]);
+    candidate!(t, Wrapping<i128>, [Wrapping(i128::MIN), Wrapping(i128::MAX)]);
+    candidate!(t, std::cmp::Reverse<u32>, [std::cmp::Reverse(u32::MAX)]);
+    candidate!(t, std::num::Saturating<i16>, [std::num::Saturating(i16::MIN)]);
+    candidate!(t, std::cell::Cell<u64>, [std::cell::Cell::new(u64::MAX)]);
+    candidate!(t, std::cell::RefCell<i64>, [std::cell::RefCell::new(i64::MIN)]);
+    candidate!(t, std::sync::Mutex<u32>, [std::sync::Mutex::new(u32::MAX)]);
+    candidate!(t, Bound<u64>, [Bound::Included(u64::MAX), Bound::Excluded(u64::MAX), Bound::Unbounded]);
+    candidate!(t, Bound<char>, [Bound::Excluded('\u{10FFFF}'), Bound::Included('\u{10FFFF}')]);
+    candidate!(t, Ipv4Addr, [Ipv4Addr::new(255, 255, 255, 255), Ipv4Addr::UNSPECIFIED]);
+    candidate!(t, Ipv6Addr, [Ipv6Addr::new(0xffff, 0xffff, 0xffff, 0xffff, 0xffff, 0xffff, 0xffff, 0xffff)]);
+    candidate!(t, IpAddr, [IpAddr::V6(Ipv6Addr::new(0xffff, 0xffff, 0xffff, 0xffff, 0xffff, 0xffff, 0xffff, 0xffff)), IpAddr::V4(Ipv4Addr::new(255, 255, 255, 255))]);
+    candidate!(t, SocketAddrV4, [SocketAddrV4::new(Ipv4Addr::new(255, 255, 255, 255), 65535)]);
+    candidate!(t, SocketAddr, [SocketAddr::V6(SocketAddrV6::new(Ipv6Addr::new(0xffff, 0xffff, 0xffff, 0xffff, 0xffff, 0xffff, 0xffff, 0xffff), 65535, u32::MAX, u32::MAX)), SocketAddr::V4(SocketAddrV4::new(Ipv4Addr::new(255, 255, 255, 255), 65535))]);
+    candidate!(t, (u8, u16, u32, u64, u128, i8, i16), [(255, u16::MAX, u32::MAX, u64::MAX, u128::MAX, i8::MIN, i16::MIN)]);
+    candidate!(t, (u64, u64, u64, u64, u64, u64, u64, u64), [(u64::MAX, u64::MAX, u64::MAX, u64::MAX, u64::MAX, u64::MAX, u64::MAX, u64::MAX)]);
+    candidate!(t, std::sync::atomic::AtomicU32, [std::sync::atomic::AtomicU32::new(u32::MAX)]);
+    candidate!(t, std::sync::atomic::AtomicI64, [std::sync::atomic::AtomicI64::new(i64::MIN)]);
+    candidate!(t, std::sync::atomic::AtomicBool, [std::sync::atomic::AtomicBool::new(true)]);
+    candidate!(t, std::ffi::CString, []);
+}
+
+/// attribute "noise" next to the in-tree derive: representation hints and lints must not change the declared maximum
+#[derive(Serialize, Deserialize, Debug, DeriveMaxSize)]
+#[repr(transparent)]
+pub struct MReprT(pub u64);
+#[derive(Serialize, Deserialize, Debug, DeriveMaxSize)]
+#[repr(C)]
+#[non_exhaustive]
+pub struct MReprC {
+    pub a: u8,
+    pub b: u64,
+}
+include!("maxsize_repr.rs");
+
 /// heapless vectors of zero-sized elements can have capacities far beyond 2^32 at no cost; the length prefix
 /// still has to be covered by the declared maximum.
 fn huge_capacity_zst<const N: usize>(t: &mut Tctx) {
@@ -445,6 +531,12 @@ pub fn run(cfg: &Cfg) -> Report {
         ty!(MUnit); ty!(MNew); ty!(MTup); ty!(MEmptyTup); ty!(MNamed); ty!(MEmptyNamed); ty!(MHeap); ty!(MOne); ty!(MTwo); ty!(MData); ty!(MNested); ty!(MStd);
         ty!(MThree); ty!(MFive); ty!(MSix); ty!(MSeven); ty!(MZst); ty!(heapless::Vec<(), 128>); ty!(heapless::Vec<u32, 100>); ty!(heapless::Vec<u64, 16384>);
         ty!(M127); ty!(M128); ty!(M129); ty!(MGen<u8>); ty!(MGen<MData>); ty!(MGen<heapless::String<4>>);
+        // candidate types (tested as soon as an impl exists) and derived types with representation attributes
+        i += 1;
+        if t.mine(i) {
+            candidate_types(t);
+            repr_attribute_types(t);
+        }
         // capacities beyond 2^32 (zero-sized elements) and serde field attributes next to the derive
         i += 1;
         if t.mine(i) {
